@@ -14,6 +14,7 @@
 #include <fcntl.h>
 #include <stdio.h>
 #include <sys/stat.h>
+#include <time.h>
 #include <sys/syscall.h>
 
 static uint64_t counter = 0;
@@ -124,4 +125,29 @@ ssize_t write(int fd, const void *buf, size_t count) {
     ssize_t n = real_write(fd, buf, count);
     if (n > 0 && getenv("VERIF_IO_HARD") && in_scratch(fd) && getenv("VERIF_IO_HARD")[0] == 'w') hard_bytes += (uint64_t)n;
     return n;
+}
+
+/* Clock seam (S-clock) for child processes: with VERIF_CLOCK_SEED set, every clock of the process
+ * jumps forward by 40 s .. 2 h on seeded reads (the process was stopped, the machine suspended).
+ * The programs under test read no clock for their results on the pinned tree (only the progress
+ * bars do); a time budget or timeout introduced into them shows as rows that depend on the clock. */
+static uint64_t clock_calls = 0;
+static uint64_t clock_offset_ns = 0;
+
+int clock_gettime(clockid_t clk, struct timespec *ts) {
+    int rc = (int)syscall(SYS_clock_gettime, clk, ts);
+    const char *s = getenv("VERIF_CLOCK_SEED");
+    if (rc != 0 || !s || !ts) return rc;
+    uint64_t seed = strtoull(s, NULL, 10);
+    uint64_t c = __atomic_fetch_add(&clock_calls, 1, __ATOMIC_SEQ_CST);
+    uint64_t x = (seed + c * 0x9E3779B97F4A7C15ULL) | 1;
+    uint64_t r = splitmix(&x);
+    if (c > 0 && r % 3 == 0) {
+        static const uint64_t jumps[4] = {40000000000ULL, 400000000000ULL, 7200000000000ULL, 1000000ULL};
+        __atomic_fetch_add(&clock_offset_ns, jumps[(r >> 8) % 4], __ATOMIC_SEQ_CST);
+    }
+    uint64_t total = (uint64_t)ts->tv_nsec + __atomic_load_n(&clock_offset_ns, __ATOMIC_SEQ_CST);
+    ts->tv_sec += (time_t)(total / 1000000000ULL);
+    ts->tv_nsec = (long)(total % 1000000000ULL);
+    return rc;
 }
